@@ -305,6 +305,8 @@ def run_group(g, trace=False, workroot=None):
     if rc != 0:
         res.reason = 'goto-cc failed (the extracted text or a contract no longer compiles): ' + (err or out)[-1500:]
         res.log = err
+        if g.loops:
+            res.loop_mismatch = True     # pasted loop contracts do not fit the (changed) loops: let the native oracle decide
         res.wall = time.time() - t0
         return res
     binary = a
